@@ -39,7 +39,19 @@ def rule_term(rng, doc, cast=None, force_pathlike=False):
     return {"path": p, "cond": cond, "cast": cast}
 
 
+def hist_case(rng):
+    """history: the rules are serialised once, then re-rooted into a parent with add_schema; the
+    parent's round trip must reflect the re-rooted rules"""
+    sub = c15._stringy(rng, G.doc(rng, 2, 4), 0.4)
+    doc = {"r": sub, "q": M.deep_copy(sub), "s": 3}
+    rules = [rule_term(rng, sub, rng.choice([None, [["str", "int"]], [["str", "bool"]]])) for _ in range(rng.randint(1, 3))]
+    root = rng.choice([[{"p": "prim", "v": "r"}], [{"p": "prim", "v": "q"}], [{"p": "map"}], [{"p": "prim", "v": "zz"}]])
+    return {"rules": rules, "doc": doc, "hist": {"root": root, "serialise_first": rng.random() < 0.8}}
+
+
 def strata(tier):
+    for j in range(60 if tier == "quick" else 300):
+        yield hist_case(G.rng_for("C13-hist", j))
     n = 40 if tier == "quick" else 150
     for cast in (None, [["str", "bool"]], [["str", "int"]]):
         for j in range(n):
@@ -56,6 +68,8 @@ def budget(tier):
 
 
 def gen(rng, tier):
+    if rng.random() < 0.12:
+        return hist_case(rng)
     doc = c15._stringy(rng, G.doc(rng, 3, 4), 0.4)
     rules = [rule_term(rng, doc, rng.choice([None, None, [["str", "bool"]], [["str", "int"]]]))
              for _ in range(rng.randint(1, 4))]
@@ -64,7 +78,7 @@ def gen(rng, tier):
 
 def required(m, tier):
     st, out = m["stats"], []
-    for k in ("rule:cast=none", "rule:cast=bool", "rule:cast=int", "schema:cast=none", "schema:cast=bool", "schema:cast=int"):
+    for k in ("rule:cast=none", "rule:cast=bool", "rule:cast=int", "schema:cast=none", "schema:cast=bool", "schema:cast=int", "history"):
         if st.get(k, 0) < 100:
             out.append(f"{k}: {st.get(k, 0)} < 100")
     return out
@@ -109,8 +123,47 @@ def roundtrip(ctx, obj, cls, tag, ctail):
     return back, j
 
 
+def run_hist(case, ctx):
+    import valida
+    rules, doc, h = case["rules"], case["doc"], case["hist"]
+    ok, objs = call(lambda: [build.rule_obj(r) for r in rules])
+    if not ok:
+        ctx.violate(f"C13/construct:{objs.type}", f"{objs!r}")
+        return
+    T = valida.Schema(list(objs))
+    if h["serialise_first"]:
+        call(T.to_json_like)
+        for o in objs:
+            call(o.to_json_like)
+    S = valida.Schema([])
+    root = build.path_obj(PC.mkpath(h["root"]))
+    ok, e = call(S.add_schema, T, root)
+    if not ok:
+        ctx.violate(f"C13/{e.key()}/history", f"add_schema raised {e!r}")
+        return
+    res = roundtrip(ctx, S, valida.Schema, "schema", "history")
+    ctx.count("history")
+    if res is None:
+        return
+    back, j = res
+    a, b = schema_beh(S, doc), schema_beh(back, doc)
+    if a != b:
+        ctx.violate("C13/behaviour/schema/history", f"after serialise -> add_schema -> round trip: original {str(a)[:300]}\n rebuilt {str(b)[:300]}\n json: {json.dumps(j)[:600]}")
+    terms = [dict(r, path=PC.mkpath(h["root"] + r["path"]["parts"])) for r in M.sort_rules(list(rules))]
+    m = M.schema_model(terms, doc)
+    if m is not M.SKIP and b[0] != "raise" and (b[0] is not m["valid"] or b[3] != canon(m["cast_data"])):
+        ctx.violate("C13/behaviour-vs-model/schema/history", f"rebuilt schema verdict {b[0]} / cast data differ from the model of the re-rooted rules; json: {json.dumps(j)[:600]}")
+    if m is not M.SKIP and m["num_tested"]:
+        ctx.mark_nontrivial((repr(case["rules"]), repr(h)))
+
+
 def run(case, ctx):
     import valida
+    if case.get("hist"):
+        run_hist(case, ctx)
+        for name, detail in mon.CONTRACTS.take():
+            ctx.violate(f"C13/contract:{name}", detail)
+        return
     rules, doc = case["rules"], case["doc"]
     ok, objs = call(lambda: [build.rule_obj(r) for r in rules])
     if not ok:
